@@ -32,6 +32,7 @@ type PPIn struct {
 
 type PPObs struct {
 	Class        string `json:"class"`
+	ErrContent   string `json:"errContent"` // "n/a" | "ok" | "message-lost" | "metadata-lost": a structured error's message and metadata as printed
 	LateMs       int    `json:"lateMs"`
 	OverBuffered bool   `json:"overBuffered"`
 	ElapsedMs    int    `json:"elapsedMs"`
@@ -112,9 +113,15 @@ func procScript(in PPIn, name, fifo string) string {
 	case strings.HasPrefix(in.Stderr, "err-"):
 		// a structured error: with a message, with an empty message, without the message field, with metadata only next to the code
 		code := strings.TrimPrefix(in.Stderr, "err-")
-		body := []string{`"errorMessage":"the plugin says no"`, `"errorMessage":""`, ``, `"errorMetadata":{"k":"v"}`}[(len(name)+len(in.Cmd)+in.Exit)%4]
+		bodyIdx := (len(name) + len(in.Cmd) + in.Exit) % 6
+		body := []string{`"errorMessage":"the plugin says no"`, `"errorMessage":""`, ``, `"errorMetadata":{"k":"v"}`, `"errorMessage":"both","errorMetadata":{"k":"v","k2":""}`, ``}[bodyIdx]
 		if body != "" {
 			body = "," + body
+		}
+		if bodyIdx == 5 {
+			// a structured error with a LONG message (100 KiB, far below the output cap): still the plugin's own error
+			fmt.Fprintf(&sb, "{ printf '{\"errorCode\":%%s,\"errorMessage\":\"' %s; head -c 100000 /dev/zero | tr '\\000' 'm'; printf '\"}'; } >&2\n", shellQuote(fmt.Sprintf("%q", code)))
+			break
 		}
 		// ... printed on one line, or indented over several lines, or with blank lines around it: the same JSON value
 		switch (len(name) + in.Exit + len(code)) % 3 {
@@ -129,7 +136,10 @@ func procScript(in PPIn, name, fifo string) string {
 		sb.WriteString("echo '{}' >&2\n")
 	case in.Stderr == "nonJSON":
 		// plain text; text followed by a line that is a structured error; two structured errors - none of them is ONE JSON value
-		switch (len(name) + in.Exit + len(in.Cmd)) % 3 {
+		switch (len(name) + in.Exit + len(in.Cmd)) % 4 {
+		case 3:
+			// a lot of diagnostics (200 KiB, far below the output cap)
+			sb.WriteString("head -c 200000 /dev/zero | tr '\\000' 'd' >&2\n")
 		case 0:
 			sb.WriteString("echo 'panic: something went wrong in the plugin' >&2\n")
 		case 1:
@@ -189,7 +199,7 @@ func runPluginProc() int {
 		fifo := filepath.Join(caseDir, "release.fifo")
 		must(syscall.Mkfifo(fifo, 0600))
 		writeExec(path, procScript(in, name, fifo))
-		obs := PPObs{}
+		obs := PPObs{ErrContent: "n/a"}
 		timeout := 60 * time.Second
 		if in.Timing != "immediate" {
 			timeout = ppDeadline
@@ -288,6 +298,22 @@ func runPluginProc() int {
 				obs.Class = "ok"
 			case errors.As(callErr, &re):
 				obs.Class = "requestError:" + string(re.Code)
+				if strings.HasPrefix(in.Stderr, "err-") {
+					// the error handed out carries what the plugin printed: message and metadata
+					wantMsg := []string{"the plugin says no", "", "", "", "both", strings.Repeat("m", 100000)}[(len(name)+len(in.Cmd)+in.Exit)%6]
+					wantMeta := []map[string]string{nil, nil, nil, {"k": "v"}, {"k": "v", "k2": ""}, nil}[(len(name)+len(in.Cmd)+in.Exit)%6]
+					obs.ErrContent = "ok"
+					gotMsg := ""
+					if re.Err != nil {
+						gotMsg = re.Err.Error()
+					}
+					if gotMsg != wantMsg {
+						obs.ErrContent = "message-lost"
+					}
+					if !mapsEqual(re.Metadata, wantMeta) {
+						obs.ErrContent = "metadata-lost"
+					}
+				}
 			case errors.As(callErr, &ee):
 				obs.Class = "executableFileError"
 			case errors.As(callErr, &me):
